@@ -20,6 +20,7 @@ import (
 	"fmt"
 	"math/rand"
 	"os"
+	"strings"
 	"sync/atomic"
 	"time"
 
@@ -132,6 +133,21 @@ func engineConfig(c caseT, cell httpx.Cell) nbhttp.Config {
 	return conf
 }
 
+// runningStacks returns the stacks of the goroutines that are running or
+// runnable right now (other than the caller).
+func runningStacks() string {
+	var out []string
+	for _, p := range strings.Split(h.Stacks(), "\n\n") {
+		if (strings.Contains(p, "[running]") || strings.Contains(p, "[runnable")) && !strings.Contains(p, "runningStacks") {
+			if len(p) > 1500 {
+				p = p[:1500]
+			}
+			out = append(out, p)
+		}
+	}
+	return strings.Join(out, "\n\n")
+}
+
 func guarded(r *h.Run, c caseT) {
 	v := h.Guard(6*time.Minute, prog, func() { runCase(r, c) })
 	cls := pathClass(c.Path)
@@ -141,7 +157,15 @@ func guarded(r *h.Run, c caseT) {
 	case "deadlock":
 		r.Violate(fmt.Sprintf("c14:%s:hang-goroutines-blocked-in-nbio", cls), v.Detail+fmt.Sprintf("\ncase %+v", c), c)
 	case "spin":
-		r.Violate(fmt.Sprintf("c14:%s:spin-no-progress", cls), v.Detail, c)
+		// the verdict is about the process: blame nbio only if a goroutine is
+		// running inside nbio frames; otherwise say what is running
+		run := runningStacks()
+		if strings.Contains(run, "github.com/lesismal/nbio") {
+			r.Violate(fmt.Sprintf("c14:%s:spin-no-progress", cls), v.Detail+"\nrunning goroutines:\n"+run, c)
+		} else {
+			fmt.Printf("case %d: process spins, no running goroutine inside nbio; running goroutines:\n%s\n", c.Index, run)
+			r.Inconclusive(fmt.Sprintf("case %d: the process burns CPU without progress but no running goroutine is inside nbio frames (see the shard log)", c.Index))
+		}
 	default:
 		r.Inconclusive(fmt.Sprintf("case %d: %s", c.Index, v.Detail))
 	}
